@@ -214,8 +214,7 @@ def c05_3(ctx):
         ctx.ob(R, "ban-dominates-push", ok, "every AGG_SIG_UNSAFE pair is recorded only after the suffix check passed on its own message")
 
 
-def c05_4(ctx):
-    R = "C05.4"
+def c05_4(ctx, R="C05.4"):
     b = U.body(ctx, R, CC + "conditions::to_key")
     if not b:
         return
@@ -234,8 +233,7 @@ def c05_4(ctx):
            found=None if ok else [str(x)[:400] for x in got])
 
 
-def c05_5(ctx):
-    R = "C05.5"
+def c05_5(ctx, R="C05.5"):
     fb = ctx.fb
     b = U.body(ctx, R, CC + "conditions::validate_signature")
     if b:
